@@ -103,6 +103,9 @@ func ParseToken(tokenString string, claims any) ([]byte, error) {
 	if err != nil {
 		return nil, fmt.Errorf("%w: malformed jwt payload: %v", ErrParse, err)
 	}
+	if !bytes.HasPrefix(bytes.TrimSpace(payload), []byte("{")) {
+		return nil, fmt.Errorf("%w: jwt payload is not a JSON object", ErrParse)
+	}
 	err = json.Unmarshal(payload, claims)
 	return payload, err
 }
